@@ -25,7 +25,7 @@ namespace std
       explicit sim_thread(F &&f, Args &&... args)
       {
         fn.reset(new std::function<void()>(std::bind(std::forward<F>(f), std::forward<Args>(args)...)));
-        ++simthread::created;
+        __atomic_fetch_add(&simthread::created, 1u, __ATOMIC_RELAXED);
         id = sim::spawn(&sim_thread::run, fn.get());
         if (id < 0)
           {
@@ -43,7 +43,7 @@ namespace std
       sim_thread &operator=(sim_thread &&o) noexcept
       {
         if (joinable())
-          ++simthread::would_terminate; // std::thread would call std::terminate here
+          __atomic_fetch_add(&simthread::would_terminate, 1u, __ATOMIC_RELAXED); // std::thread would call std::terminate here
         id = o.id;
         fn = std::move(o.fn);
         o.id = -1;
@@ -53,7 +53,7 @@ namespace std
       {
         if (joinable())
           {
-            ++simthread::would_terminate; // std::thread would call std::terminate here
+            __atomic_fetch_add(&simthread::would_terminate, 1u, __ATOMIC_RELAXED); // std::thread would call std::terminate here
             sim::join(id);
           }
       }
@@ -69,7 +69,7 @@ namespace std
       }
       void detach()
       {
-        ++simthread::would_terminate; // not supported by the simulator, never used by the tool
+        __atomic_fetch_add(&simthread::would_terminate, 1u, __ATOMIC_RELAXED); // not supported by the simulator, never used by the tool
       }
       static unsigned int hardware_concurrency() noexcept
       {
@@ -85,7 +85,7 @@ namespace std
           }
         catch (...)
           {
-            ++simthread::worker_exceptions; // an exception escaping a std::thread terminates the program
+            __atomic_fetch_add(&simthread::worker_exceptions, 1u, __ATOMIC_RELAXED); // an exception escaping a std::thread terminates the program
           }
       }
       int id = -1;
